@@ -5,6 +5,7 @@ import (
 	"time"
 
 	"github.com/nyaruka/gocommon/dates"
+	"github.com/nyaruka/gocommon/i18n"
 	"github.com/nyaruka/gocommon/jsonx"
 	"github.com/nyaruka/gocommon/urns"
 	"github.com/nyaruka/goflow/flows"
@@ -57,6 +58,11 @@ func (w *DialWait) CallLimit() time.Duration {
 // AllowedFlowTypes returns the flow types which this wait is allowed to occur in
 func (w *DialWait) AllowedFlowTypes() []flows.FlowType {
 	return []flows.FlowType{flows.FlowTypeVoice}
+}
+
+// EnumerateTemplates enumerates all expressions on this wait
+func (w *DialWait) EnumerateTemplates(include func(i18n.Language, string)) {
+	include(i18n.NilLanguage, w.phone)
 }
 
 // Begin beings waiting at this wait
